@@ -95,5 +95,6 @@ def check(P, rep):
                 vals.append(norm(g.term_local(root, bi, len(b['st']), 0)))
         good = bool(vals) and all(v[0] == 'shas' and v[1] == 'instance' and key_variant(v[2])[0] == 'Operators'
                                   and core(key_variant(v[2])[1][0]) == g.P(1) for v in vals)
+        good = good or presence_query(g, 'instance', 'Operators', g.P(1))
         rep.check(good, 'C17.R3', 'is_operator:returns-presence', 'is_operator returns presence of Operators(account)', entry_id(g),
                   '; '.join(fmt(v) for v in vals))
